@@ -21,7 +21,7 @@ def _note(run, ev):
         return
     ops = [a["op"] for a in ev["atoms"]]
     # non-trivial for C13: the state needs more than one plain entry (a bound is involved) or went through ToNodeClaim
-    run.note_case(("case", ev["id"]), any(o in BOUND for o in ops) or bool(ev["nc"]["ran"]))
+    run.note_case(("case", ev["id"]), any(o in BOUND for o in ops) or any(x["ran"] for x in ev["ncs"]))
 
 
 def stage_requirements(run):
